@@ -339,6 +339,11 @@ impl Handle {
         self.ctx.keydir.determine_map(key)
     }
 
+    /// Number of readers currently in the pool and the pool's capacity (verification hook).
+    pub fn verif_pool(&self) -> (usize, usize) {
+        (self.readers.len(), self.readers.capacity())
+    }
+
     /// Snapshot the in-memory state, taken under the writer mutex (verification hook).
     pub fn verif_dump(&self) -> crate::verif::Dump {
         let w = self.writer.lock();
